@@ -19,6 +19,14 @@ import (
 
 type c07Registry struct{ window uint64 }
 
+// c07Window: the report window of the query's data spec as it is NOW (governance may have changed it since the
+// stored round was opened): any length from one block to 2^32 - 1.
+func c07Window() uint64 {
+	w := ndUint64("window")
+	ndAssume(w >= 1 && w < 1<<32)
+	return w
+}
+
 func (r c07Registry) GetSpec(ctx context.Context, queryType string) (regtypes.DataSpec, error) {
 	return regtypes.DataSpec{ResponseValueType: "uint256", AggregationMethod: "weighted-median", ReportBlockWindow: r.window}, nil
 }
@@ -70,7 +78,7 @@ func VerifC07_submit() {
 	if jailed {
 		rep.stakeErr = errC07Jailed
 	}
-	ctx, k := vOracleKeeper(rep, newVBank(false), c07Registry{window: 10})
+	ctx, k := vOracleKeeper(rep, newVBank(false), c07Registry{window: c07Window()})
 	minStake := ndBigInt("minStake")
 	ndAssume(minStake.IsPositive() && minStake.LT(math.NewIntWithDecimal(1, 24)))
 	if err := k.Params.Set(ctx, types.Params{MinStakeAmount: minStake}); err != nil {
@@ -143,7 +151,8 @@ func VerifC07_submit() {
 // the oracle account grows by exactly what the query's tip grows.
 func VerifC07_tip() {
 	bank := newVBank(false)
-	ctx, k := vOracleKeeper(&vRepStub{}, bank, c07Registry{window: 10})
+	window := c07Window()
+	ctx, k := vOracleKeeper(&vRepStub{}, bank, c07Registry{window: window})
 	qd := c07QueryData("SpotPrice", ndByteSlice("args", 32))
 	qid := utils.QueryIDFromData(qd)
 	if err := k.QuerySequencer.Set(ctx, 50); err != nil {
@@ -155,8 +164,11 @@ func VerifC07_tip() {
 	exp := ndUint64("expiration")
 	ndAssume(exp < 1<<40)
 	inCycle := ndBool("inCycle")
+	// the window recorded in the round when it was opened (governance may have changed the spec's window since)
+	recorded := ndUint64("recordedWindow")
+	ndAssume(recorded >= 1 && recorded < 1<<32)
 	if hasRound {
-		if err := k.Query.Set(ctx, collections.Join(qid, uint64(7)), types.QueryMeta{Id: 7, Amount: before, Expiration: exp, RegistrySpecBlockWindow: 10, QueryData: qd, CycleList: inCycle, QueryType: "SpotPrice"}); err != nil {
+		if err := k.Query.Set(ctx, collections.Join(qid, uint64(7)), types.QueryMeta{Id: 7, Amount: before, Expiration: exp, RegistrySpecBlockWindow: recorded, QueryData: qd, CycleList: inCycle, QueryType: "SpotPrice"}); err != nil {
 			panic(err)
 		}
 		bank.set(vbMod("oracle"), before) // invariant O5: the oracle account holds the unpaid tips
@@ -194,9 +206,9 @@ func VerifC07_tip() {
 		ndAssert(cur.Expiration == exp && cur.CycleList == inCycle && cur.Id == 7, "open-round-keeps-its-window")
 	}
 	if hasRound && uint64(h) > exp {
-		ndAssert(cur.Expiration == uint64(h)+10 && !cur.CycleList, "expired-round-reopened-for-its-window-and-off-the-cycle-list")
+		ndAssert(cur.Expiration == uint64(h)+recorded && !cur.CycleList, "expired-round-reopened-for-its-window-and-off-the-cycle-list")
 	}
 	if !hasRound {
-		ndAssert(cur.Expiration == uint64(h)+10, "new-round-opens-for-the-spec-window")
+		ndAssert(cur.Expiration == uint64(h)+window, "new-round-opens-for-the-spec-window")
 	}
 }
